@@ -87,13 +87,31 @@ def run_results(resources, steps, on_error='default'):
         return {'error': err_code(e), 'exc': '%s: %s' % (type(c).__name__, str(c)[:300]), 'exc_type': type(c).__name__}
 
 
-def run_stream(resources, steps):
-    """Raw rows as they leave the last step (Flow.datastream(), no final cast)."""
+def _run_once(resources, steps):
+    with quiet():
+        ds = Flow(Src(copy.deepcopy(resources)), *steps).datastream()
+        rows = [list(r) for r in ds.res_iter]
+    return {'rows': rows, 'dp': ds.dp.descriptor}
+
+
+def run_stream(resources, steps, rerun=True):
+    """Raw rows as they leave the last step (Flow.datastream(), no final cast).
+    With rerun (the default) the same step objects are executed a second time on a fresh copy of the source: a
+    property that holds for a run holds for every run of the same steps, so the second run's output is what is
+    returned and judged, and a second run that differs from the first is reported as a failure."""
     try:
-        with quiet():
-            ds = Flow(Src(resources), *steps).datastream()
-            rows = [list(r) for r in ds.res_iter]
-        return {'rows': rows, 'dp': ds.dp.descriptor}
+        first = _run_once(resources, steps)
+        if not rerun:
+            return first
+        try:
+            second = _run_once(resources, steps)
+        except Exception as e2:
+            return {'error': E_OTHER, 'exc': 'the second run of the same step objects failed (%s: %s) although the first succeeded'
+                    % (type(e2).__name__, str(e2)[:200]), 'exc_type': 'SecondRun'}
+        if enc(second['rows']) != enc(first['rows']) or enc(second['dp']) != enc(first['dp']):
+            return {'error': E_OTHER, 'exc': 'the second run of the same step objects differs from the first: %s vs %s'
+                    % (str(enc(second['rows']))[:160], str(enc(first['rows']))[:160]), 'exc_type': 'SecondRun'}
+        return second
     except Exception as e:
         c = e
         while type(c).__name__ == 'ProcessorError' and getattr(c, 'cause', None) is not None:
